@@ -145,8 +145,9 @@ CHECKS = {
             'simulation over filler-robust terminals, a position-chain argument for Or\'s longest-match comparison, fuel monotonicity. '
             'Full statement refuted three ways by computation (recorded findings). Decided per input: 6-8 renderings of one token list '
             '(incl. comments holding braces/quotes/keywords) - implementation trees, pybind and MATLAB bytes, model trees.',
-            'partial: creating or removing a gap between two tokens (e.g. `f(int` vs `f ( int`) is outside the theorem (skeletons differ) and '
-            'covered by the renderings only; texts with defaults/#include are outside the theorem.',
+            'Second step (Parse/Insert.v): opening a gap (one blank between two characters no reached terminal can match across) '
+            'preserves the parse; relayout = finite compositions of both steps, C12_relayout. partial: texts with defaults/#include are '
+            'outside both steps; relatedness of two given layouts is shown step by step, not decided; the renderings cover the rest.',
             'Coq proof (layout simulation for the grammar interpreter) + re-layout correspondence', '6 C12'),
     'C19': ('proof', 'Theorem (Props/C19.v, Cost/Memo.v): a memoising evaluator computes pairwise distinct keys of the key space, hence at '
             'most 4 * nodes * (n + 1) evaluations for a text of length n - independent of nesting depth; obligation from the translator: '
